@@ -232,15 +232,27 @@ replaced wholesale. -/
 theorem conflict_deterministic (vm : Nat → Nat → Option Nat) (repl : Nat → Bool) (tx ty : Cid)
     (X Y : Live) (h : cidLt X.crAt Y.crAt = true) :
     isAddConflict (.live X) (.live Y) = true ∧ isAddConflict (.live Y) (.live X) = true
-      ∧ applyEntry vm repl tx (.live X) (.live Y) = .live X
-      ∧ applyEntry vm repl ty (.live Y) (.live X) = .live X := by
+      ∧ applyEntry vm repl tx (.live X) (.live Y) = sealSt repl (.live X)
+      ∧ applyEntry vm repl ty (.live Y) (.live X) = sealSt repl (.live X) := by
   have h' := cidLt_asymm h
   simp [applyEntry, isAddConflict, addConflictWhen, resolveAdd, incomingLoses, h, h']
+
+/-- Sealing does not touch the replicated stratum. -/
+theorem view_sealSt (repl : Nat → Bool) (s : St) : view repl (sealSt repl s) = view repl s := by
+  cases s with
+  | tomb a => rfl
+  | live e =>
+    simp only [sealSt, view]
+    congr 1
+    funext a
+    unfold rcell
+    rw [lookup_filter_key]
+    by_cases h : repl a = true <;> simp [h]
 
 /-- Same creation ⇒ no conflict, the attribute merge runs. -/
 theorem no_conflict_same_creation (vm : Nat → Nat → Option Nat) (repl : Nat → Bool) (tx : Cid)
     (X Y : Live) (h : X.crAt = Y.crAt) :
-    applyEntry vm repl tx (.live X) (.live Y) = mergeState vm repl (.live X) (.live Y) := by
+    applyEntry vm repl tx (.live X) (.live Y) = sealSt repl (mergeState vm repl (.live X) (.live Y)) := by
   simp [applyEntry, isAddConflict, addConflictWhen, h, cidLt_irrefl]
 
 /-- Exactly one conflict copy system-wide: it is written where the losing creation is replaced, and
